@@ -44,7 +44,8 @@ ASSUMPTIONS = [
     "column names are str; column lists have no repeats",
 ]
 TECHNIQUE = ("property-based testing (Hypothesis) against a numpy-indexing model of the whole table, all access styles, "
-             "binary and text; exhaustive enumeration of slices for n<=6 in the thorough tier")
+             "binary and text; exhaustive enumeration of slices (n<=3 quick, n<=6 thorough) and of all row subsets of an "
+             "8-row table (thorough: also 10 rows)")
 LEVEL_TEXT = ("Generated-input search plus an exhaustively enumerated slice sub-domain (thorough tier): every generated "
               "(table, rows, columns, access style, file form) is written with the real extension, read back through "
               "the selected style and compared byte for byte with numpy indexing of the whole table. Shows the "
@@ -62,19 +63,22 @@ ROW_DTYPES = ["i8", "i8", "i4", "i2", "u1", "u8", ">i4"]
 
 @st.composite
 def _near_progression(draw, n):
-    """Row lists that almost are a range or an arithmetic progression (same first element, first gap and
-    last element, interior elements moved; or a contiguous range with a hole / one element appended): the
-    shapes a 'this list is really a slice' shortcut would mistake for one."""
-    step = draw(st.integers(1, max(1, (n - 1) // 3)))
-    k = draw(st.integers(3, max(3, min(12, (n - 1) // step + 1))))
-    first = draw(st.integers(0, max(0, n - 1 - (k - 1) * step)))
-    prog = [first + i * step for i in range(k) if first + i * step < n]
-    v = list(prog)
+    """Row lists that almost are a range or an arithmetic progression: same first element, first gap, last
+    element and length, one or two interior elements moved off the progression (all elements stay distinct);
+    or a range with a hole / one element appended; or an exact progression.  These are the shapes a
+    'this list is really a slice' shortcut would mistake for one."""
     how = draw(st.sampled_from(["move-interior", "move-interior", "hole", "append", "exact"]))
-    if how == "move-interior" and len(v) >= 4:
-        for _ in range(draw(st.integers(1, 2))):
-            i = draw(st.integers(2, len(v) - 2))
-            v[i] = draw(st.integers(v[1] + 1, v[-1] - 1)) if v[-1] - v[1] >= 2 else v[i]
+    if how == "move-interior" and n >= 7:
+        step = draw(st.integers(2, max(2, (n - 1) // 3)))
+        k = draw(st.integers(4, max(4, (n - 1) // step + 1)))
+    else:
+        step = draw(st.integers(1, max(1, (n - 1) // 3)))
+        k = draw(st.integers(3, max(3, min(12, (n - 1) // step + 1))))
+    first = draw(st.integers(0, max(0, n - 1 - (k - 1) * step)))
+    v = [first + i * step for i in range(k) if first + i * step < n]
+    if how == "move-interior" and len(v) >= 4 and step >= 2:
+        for i in draw(st.lists(st.integers(2, len(v) - 2), min_size=1, max_size=2, unique=True)):
+            v[i] += draw(st.sampled_from([-1, 1])) * draw(st.integers(1, step - 1))
     elif how == "hole" and len(v) >= 3:
         del v[draw(st.integers(1, len(v) - 2))]
     elif how == "append":
@@ -260,6 +264,23 @@ def exhaustive_slices(tier):
                                 yield {"table": t, "delim": delim, "style": style,
                                        "rows": {"k": "slice", "v": [a, b, s]}, "cols": cols,
                                        "nrows_given": True, "mode": "r"}
+
+
+def exhaustive_rowsets(tier):
+    """Every subset of >= 2 rows of an 8-row table (thorough: also 10 rows), as a sorted list, read with all
+    columns and with a column subset, binary and text: no shortcut that treats some row lists specially
+    (e.g. as a slice) can hide in a corner of the subset lattice."""
+    import itertools
+    for n in ((8,) if tier != "thorough" else (8, 10)):
+        t = _fixed_table(n)
+        for k in range(2, n + 1):
+            for sub in itertools.combinations(range(n), k):
+                rows = {"k": "list", "v": list(sub)}
+                for delim in (None, ","):
+                    yield {"table": t, "delim": delim, "style": "rf[rows]", "rows": rows, "cols": {"k": "none"},
+                           "nrows_given": True, "mode": "r"}
+                yield {"table": t, "delim": None, "style": "rf[cols][rows]", "rows": rows,
+                       "cols": {"k": "list", "v": ["x", "id"]}, "nrows_given": True, "mode": "r"}
 
 
 # ----------------------------------------------------------------------------- model
@@ -627,10 +648,11 @@ def selftest():
 
 
 SUBCHECKS = [
-    Subcheck("keyword", keyword_cases, check, classify, quick=900, thorough=40000),
-    Subcheck("bracket", bracket_cases, check, classify, quick=700, thorough=30000),
-    Subcheck("sfile", sfile_cases, check, classify, quick=800, thorough=40000),
+    Subcheck("keyword", keyword_cases, check, classify, quick=2500, thorough=40000),
+    Subcheck("bracket", bracket_cases, check, classify, quick=2000, thorough=30000,
+             exhaustive=exhaustive_rowsets, exhaustive_tiers=("quick", "thorough")),
+    Subcheck("sfile", sfile_cases, check, classify, quick=2000, thorough=40000),
     Subcheck("slices", slice_cases, check, classify, quick=900, thorough=30000,
              exhaustive=exhaustive_slices, exhaustive_tiers=("quick", "thorough")),
-    Subcheck("reject", reject_cases, check, classify, quick=500, thorough=15000),
+    Subcheck("reject", reject_cases, check, classify, quick=1200, thorough=15000),
 ]
